@@ -433,7 +433,7 @@ fn collect_ops(e: &Expr, out: &mut Vec<&'static str>) {
 }
 
 pub fn shard(ctx: &mut Ctx) {
-    let (tables, max_rows, nq) = ctx.tier.pick((4000, 40, 10), (60000, 200, 20));
+    let (tables, max_rows, nq) = ctx.tier.pick((6000, 40, 10), (60000, 200, 20));
     let n = ctx.share(tables);
     ctx.drive("arith", case_strategy(max_rows, nq), n, check);
 }
